@@ -152,13 +152,15 @@ CLAIMS = {
  "C17": ("5 C17",
          "Coq theorems over the same connection model: batched-timer quantisation (never late, < 1 s early), opening-handshake "
          "timer silent/responsive, every pending dropping timeout fires by its deadline and closes the connection, Tick "
-         "completeness, bounded close/drop, no timer has any effect after CLOSED. Differential run: timelines on a 125 ms grid "
-         "with every placement of each peer reaction before/at/after each deadline for settings {0,1,2,5} s, both roles and "
-         "frameworks.",
-         "Partial: responsiveness is proved for the open, close and drop timers (a peer that reacted in time is never cut by "
-         "them); for the auto-ping timer only the per-step statement (C17_responsive_ping_partial) is proved - periodic re-arming "
-         "(uniqueness of the re-armed ping call over a whole run) is covered by the grid runs, not by a general invariant; "
-         "wall-clock behaviour of real reactors is assumed. Same trusted base as C05.",
+         "completeness, bounded close/drop, no timer has any effect after CLOSED, auto-ping unique/periodic/responsive. "
+         "Differential run: timelines on a 125 ms grid with every placement of each peer reaction (every kind of incoming "
+         "frame: whole, first/middle/last fragment, header only, ping, matching and non-matching pong) before/at/after each "
+         "deadline for settings {0,1,2,5} s, restart-on-traffic on and off, both roles and frameworks.",
+         "Partial only in that wall-clock behaviour of real reactors is assumed (virtual clocks). Responsiveness is proved for the "
+         "open, close, drop and auto-ping timers (C17_responsive_ping: after any event list a matching pong leaves no timeout "
+         "call pending and exactly one next ping within the interval), ping uniqueness and periodicity are general invariants "
+         "over all reachable states (C17_ping_unique, C17_ping_periodic), any data frame restarts the timeout when "
+         "autoPingRestartOnAnyTraffic is on (C17_any_data_frame_restarts). Same trusted base as C05.",
          "Coq invariants over a timed transition system + grid correspondence on virtual clocks"),
  "C07": ("5 C07",
          "Coq theorems over an executable model of parseHttpHeader, both processHandshake chains, succeedHandshake, request "
